@@ -120,28 +120,29 @@ Theorem C07_setup_nonvacuous :
              /\ setup_first tr = true /\ count_ev is_setup tr = 1.
 Proof. exact setup_nonvacuous. Qed.
 
-(* "kernprof terminates promptly": no threading.Timer of a RepeatedTimer is
-   pending when main returns.  FINDING: false with -i - for EVERY schedule of
-   timer firings during the program exactly one Timer is left (the RepeatedTimer
-   is created twice and only the second is stopped), so the interpreter waits for
-   it at exit. *)
-Theorem C07_no_helper_thread_after_run_refuted :
-  exists w o t args tr,
-    kern_run w o t args = Some tr /\ forall sched, live_after_main sched tr <> 0%nat.
-Proof. exact no_helper_thread_after_run_refuted. Qed.
-
-Theorem C07_timer_leaks_with_interval :
+(* "kernprof terminates promptly": for every option record - with or without -i -,
+   target, argument list and schedule of timer firings while the program runs, no
+   threading.Timer of a RepeatedTimer is pending when main has returned.
+   (Before fix 204c2e5 this was refuted: the timer was constructed twice.) *)
+Theorem C07_no_helper_thread_after_run :
   forall w o t args tr sched,
-    kern_run w o t args = Some tr -> 0 < o_interval o -> live_after_main sched tr = 1%nat.
-Proof. exact timer_leaks_with_interval. Qed.
+    kern_run w o t args = Some tr -> live_after_main sched tr = 0%nat.
+Proof. exact no_helper_thread_after_run. Qed.
 
-(* without -i the statement holds *)
-Theorem C07_no_helper_thread_without_interval :
-  forall w o t args tr sched,
-    kern_run w o t args = Some tr -> o_interval o <= 0 -> live_after_main sched tr = 0%nat.
-Proof. exact no_timer_without_interval. Qed.
+(* -i really creates a timer that fires and is pending until it is stopped *)
+Theorem C07_timer_nonvacuous :
+  exists tr, kern_run w_ex o_interval1 (TScript (rel ["prog.py"])) [] = Some tr
+             /\ timer_ops [0%nat; 0%nat] tr = [TCreate; TFire 0; TFire 0; TStopRt]
+             /\ live_threads (trun [TCreate; TFire 0; TFire 0]) = 1%nat
+             /\ live_after_main [0%nat; 0%nat] tr = 0%nat.
+Proof. exact timer_nonvacuous. Qed.
 
-(* and creating the timer once (the two-line repair) would make it hold with -i *)
+(* the bookkeeping itself: one construction + stop leaves nothing; the former
+   double construction left exactly one Timer for every schedule *)
 Theorem C07_single_timer_stops :
   forall sched, live_threads (trun ([TCreate] ++ map TFire sched ++ [TStopRt])) = 0%nat.
 Proof. exact single_timer_stops. Qed.
+
+Theorem C07_double_creation_would_leak :
+  forall sched, live_threads (trun ([TCreate; TCreate] ++ map TFire sched ++ [TStopRt])) = 1%nat.
+Proof. exact double_creation_leaks. Qed.
